@@ -69,9 +69,13 @@ const ratioResolution = 100_000_000
 
 // scaledCeil returns count*ratio rounded up, computed in integers: the float64
 // product is not exact (100 * 0.07 = 7.000000000000001 used to give 8, not 7).
+// count is split into whole multiples of ratioResolution and a rest, so that
+// no intermediate product can overflow for any int64 count and any ratio <= 1.
 func scaledCeil(count int64, ratio float64) int64 {
-	product := count * int64(math.Round(ratio*ratioResolution))
-	result := product / ratioResolution
+	units := int64(math.Round(ratio * ratioResolution))
+	whole, rest := count/ratioResolution, count%ratioResolution
+	product := rest * units
+	result := whole*units + product/ratioResolution
 	if product > 0 && product%ratioResolution != 0 {
 		result++
 	}
